@@ -615,6 +615,11 @@ void parallel_for(
   }
 
   if (isStatic) {
+    // With wait == false the caller must not run the granularity tail itself: the scheduled chunks
+    // may still be running, so the tail would share states[0] with chunk 0 and add one body
+    // invocation beyond maxThreads. Fold the tail into the last chunk instead (it then ends at the
+    // range end, which the granularity contract allows).
+    const bool foldTail = hasTail && !options.wait;
     detail::parallel_for_staticImpl(
         taskSet,
         states,
@@ -624,8 +629,11 @@ void parallel_for(
         static_cast<ssize_t>(maxThreads),
         options.wait,
         options.reuseExistingState,
-        granularity);
-    runTail();
+        granularity,
+        foldTail ? range.end : trimmedEnd);
+    if (!foldTail) {
+      runTail();
+    }
     return;
   }
 
